@@ -45,3 +45,12 @@ for tag, gen in (("findings", findings), ("seeded", seeded)):
         s = s[:i] + "\n" + gen() + "\n" + s[j:]
 open(p, "w").write(s)
 print("DESIGN.md tables regenerated")
+# theorem count in section 7
+import re as _re
+_n = 0
+for _f in glob.glob(os.path.join(V, "coq", "theories", "Properties", "*.v")):
+    _n += len(_re.findall(r"^\s*(?:Theorem|Corollary)\s", open(_f).read(), _re.M))
+_s = open(p).read()
+_s = _re.sub(r"<!--NTHM-->\d+<!--/NTHM-->", "<!--NTHM-->%d<!--/NTHM-->" % _n, _s)
+open(p, "w").write(_s)
+print("property theorems:", _n)
